@@ -59,7 +59,7 @@ fn rsplit_body<const N: usize>(s: &SymStr<N>) {
 //# {"id":"c14_nest_type_alpha3","props":["C14"],"tier":"quick","cap":1200,"bound":"every valid class name of length 1..=3 over the alphabet 0 1 a C _ / $ ; unwind 6","z":["stubbing"],"fns":["dukenest::nests_mapper_run::NestTypeA::new","dukenest::nester_jar::strip_local_class_prefix"]}
 //# {"id":"c14_rsplit_alpha4","props":["C14"],"tier":"quick","cap":1500,"bound":"every valid class name of length 1..=4 over the alphabet 0 1 a C _ / $ ; unwind 7","z":["stubbing"],"fns":["dukenest::nests_mapper_run::rsplit_underscore"]}
 //# {"id":"c14_inner_name_cases","props":["C14"],"tier":"quick","cap":1500,"bound":"inner_name on nest class names {Foo, Foo$Bar, Foo$1Bar} x inner names {Bar, 1Bar, 12, Baz} x mapped names {M, p/M, p/C_7, C_x} chosen symbolically; unwind 12","z":["stubbing"],"lib":"verif","fns":["dukenest::nests_mapper_run::{inner_name,construct_inner_name_from_anonymous_number}"]}
-//# {"id":"c14_nest_type_alpha5","props":["C14"],"tier":"thorough","cap":3000,"bound":"every valid class name of length 1..=5 over the alphabet 0 1 a C _ / $ ; unwind 8","z":["stubbing"],"fns":["NestTypeA::new","strip_local_class_prefix"]}
+//# {"id":"c14_nest_type_alpha5","props":["C14"],"tier":"quick","cap":900,"bound":"every valid class name of length 1..=5 over the alphabet 0 1 a C _ / $ ; unwind 8","z":["stubbing"],"fns":["NestTypeA::new","strip_local_class_prefix"]}
 proofs! {
 	#[cfg_attr(kani, kani::unwind(6))]
 	fn c14_nest_type_alpha3() { let s = SymStr::<3>::over(NEST_ALPHABET, 1, 3); nest_type_body(&s); }
